@@ -79,7 +79,10 @@ fn main() {
         runs_override: None,
         write_evidence: true,
         digest: false,
+        skip_systematic: false,
+        ballast: None,
     };
+    let mut explicit_runs = false;
     let mut i = 2;
     while i < args.len() {
         match args[i].as_str() {
@@ -89,6 +92,7 @@ fn main() {
             }
             "--runs" => {
                 opt.runs_override = Some(args[i + 1].parse().expect("runs"));
+                explicit_runs = true;
                 i += 1;
             }
             "--workers" => {
@@ -119,6 +123,27 @@ fn main() {
             _ => usage(),
         }
         i += 1;
+    }
+    // Pressure pass: a slice of seeded runs executed while one more connection, whose receive buffer
+    // has grown to tens of MiB, is alive in this process (one for the whole pass, so that every run
+    // sees the same process-wide state and replays exactly).
+    let n_pressure = prop.pressure_runs(tier);
+    if n_pressure > 0 && !explicit_runs && !opt.digest {
+        let bytes = (64usize << 20) + 4096 + (opt.seed % 1000) as usize * 4096;
+        let ballast = neighbours::ballast(bytes);
+        runner::UNDER_BALLAST.store(true, std::sync::atomic::Ordering::Relaxed);
+        let popt = Options { tier, seed: opt.seed ^ 0x5eed_ba11, workers: opt.workers, runs_override: Some(n_pressure), write_evidence: false, digest: false, skip_systematic: true, ballast: Some(bytes) };
+        let t0 = std::time::Instant::now();
+        let rc = runner::run_batch(prop.as_ref(), &popt);
+        runner::UNDER_BALLAST.store(false, std::sync::atomic::Ordering::Relaxed);
+        drop(ballast);
+        if rc != 0 {
+            std::process::exit(rc);
+        }
+        *runner::PRESSURE_SUMMARY.lock().unwrap() = Some(serde_json::json!({
+            "what": "seeded runs executed while a connection whose receive buffer holds this many bytes is alive in the same process",
+            "ballast_bytes": bytes, "runs": n_pressure, "violations": 0, "wall_s": t0.elapsed().as_secs_f64(),
+        }));
     }
     std::process::exit(runner::run_batch(prop.as_ref(), &opt));
 }
